@@ -216,13 +216,23 @@ void run_level(vf::Ctx& c)
     T const thr = static_cast<T>(t.pick(4) == 0 ? 0.0L : t.unit());
     int const fkind = static_cast<int>(t.pick(3));
     std::uint32_t const seed = static_cast<std::uint32_t>(t.next());
+    // a region of non-finite values (the evaluations are dropped, the weights must stay a probability vector), and
+    // the integrand may carry a distribution (second accumulator specialisation)
+    int const nfkind = t.pick(3) == 0 ? 1 + static_cast<int>(t.pick(3)) : 0;
+    T const nfthr = static_cast<T>(0.5L + 0.5L * t.unit());
+    bool const with_dist = t.flag();
     c.desc << vf::type_name<T>::get() << " run " << fam.describe() << " weights=" << (user_weights ? how + vf::show(w0) : std::string("default"))
            << " beta=" << vf::show(beta) << " min=" << vf::show(minw) << " calls=" << vf::show(calls) << " thr=" << vf::show(thr)
-           << " f=" << fkind << " seed=" << seed;
+           << " f=" << fkind << " seed=" << seed << (nfkind ? std::string(nfkind == 1 ? " +inf" : nfkind == 2 ? " -inf" : " NaN") + " for x0 > " + vf::show(nfthr) : std::string())
+           << (with_dist ? " with a distribution" : "");
 
-    auto f = [thr, fkind](hep::multi_channel_point<T> const& p) -> T {
+    auto f = [thr, fkind, nfkind, nfthr](hep::multi_channel_point<T> const& p) -> T {
         T const x = p.coordinates()[0];
         if (x < thr) { return T(0); }
+        if (nfkind && x > nfthr)
+        {
+            return nfkind == 1 ? std::numeric_limits<T>::infinity() : nfkind == 2 ? -std::numeric_limits<T>::infinity() : std::numeric_limits<T>::quiet_NaN();
+        }
         switch (fkind)
         {
         case 0: return T(1);
@@ -231,11 +241,18 @@ void run_level(vf::Ctx& c)
         }
     };
     vf::PwcMap<T> map{&fam, nullptr, nullptr};
-    auto integrand = hep::make_multi_channel_integrand<T>(f, fam.dims, map, fam.map_dims, channels);
+    auto fd = [f](hep::multi_channel_point<T> const& p, hep::projector<T>& proj) -> T {
+        T const v = f(p);
+        proj.add(0, p.coordinates()[0], v);
+        return v;
+    };
     auto chk = user_weights ? hep::make_multi_channel_chkpt<T>(w0, minw, beta, std::mt19937(seed))
                             : hep::make_multi_channel_chkpt<T>(minw, beta, std::mt19937(seed));
     using Chk = decltype(chk);
-    auto const result = hep::multi_channel(integrand, calls, chk, hep::callback<Chk>(hep::callback_mode::silent));
+    auto const result = with_dist
+        ? hep::multi_channel(hep::make_multi_channel_integrand<T>(fd, fam.dims, map, fam.map_dims, channels, hep::make_dist_params<T>(4, T(0), T(1), "x")), calls, chk,
+              hep::callback<Chk>(hep::callback_mode::silent))
+        : hep::multi_channel(hep::make_multi_channel_integrand<T>(f, fam.dims, map, fam.map_dims, channels), calls, chk, hep::callback<Chk>(hep::callback_mode::silent));
     VF_CHECK(c, result.results().size() == iters, "C08:run-length", "performed " << result.results().size() << " of " << iters << " iterations");
 
     // which channels are disabled at the start
@@ -312,6 +329,8 @@ void run_level(vf::Ctx& c)
     check_vector(c, next, prev, "chkpt.channel_weights()");
     if (zero_info) { c.label("run-iteration-without-information"); }
     if (disabled) { c.label("disabled-channel"); }
+    if (nfkind) { c.label("run-with-non-finite-region"); }
+    if (with_dist) { c.label("run-with-distribution"); }
     c.label("run-level");
     c.nontrivial = channels >= 2 && changed && (disabled > 0 || minw > T(0) || zero_info);
 }
